@@ -49,6 +49,16 @@ def generate(tier, seed):
             ad = adapter_X(ad, "p" + "".join(rnd.choice("pppprf") for _ in range(2 * n)))
         cases.append(case(rnd.choice(["eng", "eng", "engc"]), sp, ad, "w", steps))
         dist["random"] += 1
+    # filtered removals (and the RBAC helpers built on them) that match NOTHING, on adapters that let the call through
+    # (Null adapter; Memory with auto-save off): no change, no notification
+    dist["empty_filtered_removals"] = 0
+    for ad, pre in (("N", []), (adapter_M(initial_lines(rnd, False, True)), ["ES:0"])):
+        for o in [RF("p", "p", 0, ["nobody"]), RF("g", "g", 0, ["nobody"]), RF("g", "g", 1, ["norole"]), "du:nobody", "dra:norole", "drs:nobody:-", "dpsf:nobody"]:
+            steps = list(obs)
+            for t in pre + [o, o]:
+                steps += [t] + obs
+            cases.append(case("eng", sp, ad, "w", steps))
+            dist["empty_filtered_removals"] += 1
     # two policy types per section: the event must name the policy type, not the section
     sp = multi_spec()
     al = multi_alphabet() + ["SV"]
